@@ -310,7 +310,13 @@ func runC08(c *Ctx) {
 		c.S.Viol = nil
 	}
 	if c.S.Viol == nil {
-		CheckStreams(c, t, v, "C08", !v.Dead && !t.closed)
+		sv := CheckStreams(c, t, v, "C08", !v.Dead && !t.closed)
+		if c.S.Viol == nil && sv != nil && unframeable != "" && sv.HostGot < sv.HostWant {
+			// the stream could not be framed any further, but every packet in front of that point
+			// was complete: its effects are the same as with any other segmentation, i.e. the
+			// payloads of those data packets have reached the host by the time the tunnel is gone
+			c.S.Fail("C08", "host-stream-incomplete", "%s/%s: the tunnel ended at %s; the data packets in front of that point declared %d payload bytes, the host received %d (sent=%s)", p.Name, p.Transport, unframeable, sv.HostWant, sv.HostGot, planString(p, len(t.Client.Sent)))
+		}
 	}
 	if vi := c.S.Viol; vi != nil {
 		// the same packets in the same order must have the same effects whatever the
